@@ -29,9 +29,9 @@ func main() {
 	sim.WorkerMain(sim.EngineSpec{
 		Name: "wsim",
 		Props: map[string]sim.PropSpec{
-			"C01": {Run: runC01, Modes: []string{"generated", "corpus", "generated", "expr"}},
-			"C02": {Run: runC02, Modes: []string{"generated", "corpus", "axioms", "generated", "flow", "expr"}},
-			"C04": {Run: runC04, Modes: []string{"expr", "expr", "generated", "expr", "flow", "corpus"}},
+			"C01": {Run: runC01, Modes: []string{"generated", "corpus", "generated", "expr", "coro", "slice", "coro"}},
+			"C02": {Run: runC02, Modes: []string{"generated", "corpus", "axioms", "flow", "expr", "coro", "slice", "flow", "coro"}},
+			"C04": {Run: runC04, Modes: []string{"expr", "coro", "generated", "expr", "flow", "coro", "slice", "corpus"}},
 		},
 	})
 }
@@ -138,6 +138,14 @@ type execResult struct {
 	unsupported string
 	checks      int
 	steps       int
+	suspensions int
+	output      []byte // what coroutines wrote to the destination
+	// driveHistory only: the interpreter (for a final state dump), the recorded
+	// caller actions, the source stream and the destination capacity
+	interp *interp
+	steps2 []driveStep
+	stream []byte
+	dstCap int
 }
 
 // execute runs a seeded history of public calls on a fresh receiver.
@@ -201,6 +209,12 @@ func runC01(tp *sim.Tape, opt sim.RunOpt) *sim.Outcome {
 	} else if opt.Mode == "expr" {
 		src = generateExprProgram(tp)
 		name, mech = "generated-expr", lastGenMech
+	} else if opt.Mode == "coro" {
+		src = generateCoroProgram(tp)
+		name, mech = "generated-coro", lastGenMech
+	} else if opt.Mode == "slice" {
+		src = generateSliceProgram(tp)
+		name, mech = "generated-slice", lastGenMech
 	} else {
 		src = generate(tp)
 		name, mech = "generated", lastGenMech
@@ -224,7 +238,16 @@ func runC01(tp *sim.Tape, opt sim.RunOpt) *sim.Outcome {
 			o.Probe("accepted_mechanism " + m)
 		}
 	}
-	res := execute(p, tp, 1+tp.Draw(8), nil)
+	var res execResult
+	if opt.Mode == "coro" {
+		res = driveHistory(p, tp, nil)
+		o.ProbeN("suspensions", int64(res.suspensions))
+		if res.suspensions > 0 {
+			o.Probe("runs_with_a_suspension")
+		}
+	} else {
+		res = execute(p, tp, 1+tp.Draw(8), nil)
+	}
 	for _, c := range res.calls {
 		fp.AddStr(c)
 	}
